@@ -159,7 +159,11 @@ class SegBuf:
             def extend(ev, a, k, n):
                 for s in self.segments_of(a[0]):
                     self.segs.append(s)
-                    self.events.append(("append", s, line))
+                    snap = None
+                    if s[0] == "abs":
+                        # what the generic byte is, and what was done to the buffer, at the moment it is written
+                        snap = (s[1].val, tuple(e[0] for e in s[1].events))
+                    self.events.append(("append", s, line, snap))
             return Native(extend, "bytearray.extend")
         if attr == "append":
             def append(ev, a, k, n):
